@@ -187,7 +187,8 @@ def undefined(chk, F):
                          "the shift is computed only for an integer count (den == 1)", "%s accepts a non-integer shift count" % name)
     # bit operators: only on as_bigint Some values of both operands
     for name, sym in (("and", "BitAnd"), ("or", "BitOr"), ("xor", "BitXor")):
-        fn = F.find(CORE, NUM + name)
+        # (normalised: the three bodies may share a private helper that is handed the operation as a closure)
+        fn = F.find(CORE, NUM + name, inline=True, keep=("Option::<T>", "Result::<T, E>", "Iterator", "bool>::then"))
         acts = [(bb, t) for bb, t in fn.calls() if "callee" in t and ("::bit::%s" % sym) in t["callee"]["path"]]
         if len(acts) != 1:
             raise AnchorLost("Number::%s: bit operation call not found" % name)
